@@ -62,11 +62,12 @@ def sortKVs : KVs → KVs
   | .nil => .nil
   | .cons k v r => insertKV k v (sortKVs r)
 
-/-- A map key type: strings or integers, never a pointer. -/
-def KeyTy : GoTy → Prop
-  | .prim .str => True
-  | .prim (.int _) => True
-  | _ => False
+/-- A map key: a string as utf8, or an integer of any width (never a pointer, never a type
+override: a map key is described without tag options). -/
+def KeyTy : GoTy → ATy → Prop
+  | .prim .str, .utf8 => True
+  | .prim (.int _), .int _ => True
+  | _, _ => False
 
 /-! ### names inside a struct-tagged struct -/
 
@@ -140,7 +141,7 @@ def WT (t : GoTy) (a : ATy) : Val → Prop
     | .slice et, .list ea => (isNil = true → vs = .nil) ∧ WTs et ea vs
     | _, _ => False
   | .map isNil kvs => match derefTy t, a with
-    | .map kt vt, .map ka va => (isNil = true → kvs = .nil) ∧ KeyTy kt ∧ WTkvs kt vt ka va kvs
+    | .map kt vt, .map ka va => (isNil = true → kvs = .nil) ∧ KeyTy kt ka ∧ WTkvs kt vt ka va kvs
     | _, _ => False
   | .struct sfs => match derefTy t, a with
     | .struct gfs, .struct afs => NoArrowTags gfs.tags ∧ NamesDistinct gfs.tags ∧ WTfields gfs afs sfs
